@@ -514,6 +514,48 @@ def plan_cli(rng, states, T, layout, thorough, fmts, edits_n):
     return plan
 
 
+def self_baseline_variants(res):
+    """self-baseline histories the state enumeration does not reach: the baseline report written with every context size (-n 0 included: the
+    seeded change C07-m3 dropped `code` from such a report, which the loader then refused), file-level findings (B613) in files with several
+    affected lines, and pure line shifts of such files (seeded change C07-m4 put other line numbers into the message, i.e. into the identity)."""
+    d = tempfile.mkdtemp(prefix="bverif_c07b_")
+    try:
+        progs = {
+            "multi.py": "import subprocess\npassword = 'pw'\nsubprocess.Popen('ls',\n    shell=True)\nassert x\n",
+            "bidi_one.py": "x = 1\n# note \u202e hidden\ny = 2\n",
+            "bidi_two.py": "x = 1\ns = 'a\u2066b'  # first\ny = 2\nz = 3  # \u202e second\nimport pickle\n",
+        }
+        for name, src in progs.items():
+            p = os.path.join(d, name)
+            for n in ("0", "1", "3", "10"):
+                with open(p, "w", encoding="utf-8") as f:
+                    f.write(src)
+                linecache.clearcache()
+                rep = os.path.join(d, "rep_%s_%s.json" % (name, n))
+                r0 = C.run_cli(["-f", "json", "-n", n, "-o", rep, p])
+                if r0["exc"] or not os.path.exists(rep):
+                    res.violation("no baseline report could be written", {"program": src, "context_lines": n, "exit": r0["exit"], "exc": r0["exc"]})
+                    continue
+                n_found = len(json.load(open(rep, encoding="utf-8"))["results"])
+                for shift in (0, 2):
+                    with open(p, "w", encoding="utf-8") as f:
+                        f.write("# added line\n" * shift + src)
+                    linecache.clearcache()
+                    r = C.run_cli(["-f", "json", "-b", rep, p])
+                    res.case(("self-baseline", name, n, shift), n_found > 0)
+                    res.count("self-baseline:n=%s" % n)
+                    try:
+                        new = json.loads(r["out"])["results"]
+                    except Exception:
+                        new = None
+                    if r["exc"] or new is None or new or r["exit"] != 0:
+                        res.violation("a run against its own baseline (same code%s) reports findings or fails" % (", lines shifted" if shift else ""),
+                                      {"program": src, "context_lines_of_baseline": n, "inserted_lines_above": shift, "baseline_findings": n_found,
+                                       "exit": r["exit"], "exc": r["exc"], "reported": [[x["test_id"], x["line_number"], x["issue_text"]] for x in (new or [])]})
+    finally:
+        shutil.rmtree(d, ignore_errors=True)
+
+
 def run(res, ctx):
     thorough = res.tier == "thorough"
     kinds = KINDS[res.tier]
@@ -539,6 +581,7 @@ def run(res, ctx):
         if ctx.get("replay"):
             return replay(res, chk, ctx["replay"])
         _run(res, ctx, chk, world, kinds, thr, fmts, thorough)
+        self_baseline_variants(res)
         if unknown_fmts:
             res.notes.append("baseline-capable formats without a parser here (only exit status checked): %s" % unknown_fmts)
     finally:
